@@ -72,6 +72,18 @@ CHECKS["C01"] = dict(
     note="clean stop only; compaction is not run concurrently with applies; MCP / persistent instances / cache are "
          "not driven yet; trusts the dump (public query messages + one read-only hook for the sequence counters)",
     design_ref="5 C01")
+CHECKS["C04"] = dict(
+    engine="crashstore",
+    technique="TLA+ module CrashStore.tla: operation histories (RaftLog.tla contract + hard state + membership) generated by "
+              "TLC simulation; each history runs on a real node under a journal of its file mutations (strace), the directory "
+              "image of every journal prefix is rebuilt and opened by the real start-up code, and TLC evaluates the crash "
+              "contract (Reopens, Contiguous, KeepsAcked, OnlySubmitted, MetaWritten, AppliedReproducible) on every image",
+    text="Exhaustive over crash points of each executed history (every prefix of the mutation journal), sampled over "
+         "histories; the specification supplies the histories and is the evaluator of the contract on the recovered stores.",
+    note="crash model as in the property (process death, writes atomic and in program order); journal by strace, no source "
+         "change; quick tier opens at most 90 images per history; the write-ordering design itself is not model-checked "
+         "yet (the contract is evaluated on real recoveries only); MetaWritten in the property's weak form",
+    design_ref="5 C04")
 CHECKS["C07"] = dict(
     engine="statemachine",
     technique="TLA+ spec StateMachine.tla (ApplyReq reference semantics), TLC-generated request sequences and batch "
